@@ -38,6 +38,9 @@ from odxmodel.emit import scratch_dir
 PROPERTY = "C11"
 LEVEL = "exploration"
 
+# auxiliary files with unusual but legal names: leading dot, no extension, upper-case extension, spaces, several dots, non-ASCII
+UNUSUAL_AUX_FILES = {".flash_layout": b"hidden?\n", "README": b"no extension\n", "NOTES.TXT": b"upper-case extension\n", "my flash data.bin": b"\x00\x01 spaces",
+                     "a.b.c.tar.gz": b"several dots", ".hidden.JSON": b"{}", "Gr\u00fc\u00dfe.txt": b"non-ascii name"}
 MODEL_VERSIONS = ("2.0.1", "2.1.0", "2.2.1", "2.3.0")  # besides 2.2.0
 MAXCAND = 4  # instances tried per (class, field, kind) until one keeps the database self-consistent
 SHIPPED = {"somersault": "examples/somersault.pdx", "somersault_modified": "examples/somersault_modified.pdx"}
@@ -206,9 +209,15 @@ def base_members(base: str, off: Sequence[str]) -> Dict[str, bytes]:
             _MEMBERS[key] = E.members(off, base[3:])
         elif base.startswith("mini@"):  # a small database the way ODX before 2.2 has it
             _MEMBERS[key] = E.mini_members(base[5:])
-        elif base == "ks-written":  # what write_pdx_file makes of the kitchen-sink database (index.xml first -> last, as in shipped archives)
+        elif base.endswith("-written"):  # what write_pdx_file makes of a database (archive to be extracted / listed / loaded again)
             install_template_cache()
-            _MEMBERS[key] = write_members(load_base("ks", off))
+            _MEMBERS[key] = write_members(load_base(base[:-len("-written")], off))
+        elif base == "ks-auxnames":  # the kitchen sink + auxiliary files with unusual but legal names
+            m = E.members(off)
+            idx = m.pop("index.xml")
+            m.update(UNUSUAL_AUX_FILES)
+            m["index.xml"] = idx
+            _MEMBERS[key] = m
         else:
             _MEMBERS[key] = read_members(os.path.join(repo_root(), SHIPPED[base]))
     return _MEMBERS[key]
@@ -1321,6 +1330,11 @@ def compare_loaded(ref: Any, ref_beh: List[Any], db: Any, how: str) -> List[Tupl
         out.append((f"C11/entrypoint/{how}/Database.model_version", f"{ref.model_version} vs {db.model_version}"))
     if aux_view(ref) != aux_view(db):
         out.append((f"C11/entrypoint/{how}/auxiliary_files", f"{sorted(aux_view(ref))} vs {sorted(aux_view(db))}"))
+    else:
+        ca, cb = aux_contents(ref), aux_contents(db)
+        bad = [n for n in sorted(ca) if ca[n] != cb.get(n)]
+        if bad:
+            out.append((f"C11/entrypoint/{how}/auxiliary_files", f"content of {bad[0]!r}: {ca[bad[0]][:40]!r} vs {cb.get(bad[0], b'')[:40]!r}"))
     bd = behaviour_diff(ref_beh, behaviour(db))
     if bd:
         out.append((bd[0].replace("C11/behaviour", f"C11/order/{how}/behaviour"), bd[1]))
@@ -1445,7 +1459,7 @@ def run(ctx: Ctx) -> None:
         except Exception as e:
             ctx.note(f"{name} is not loadable ({type(e).__name__}: {str(e)[:80]}): not a base")
     ctx.extra["model_versions"] = {"tried": list(MODEL_VERSIONS), "bases": [b for b, _ in versioned]}
-    pmap(ctx, baseline_unit, bases + versioned)
+    pmap(ctx, baseline_unit, bases + [("ks-auxnames", off)] + versioned)  # (unperturbed round trip only for the last ones)
     stages = dict(ctx.sets.pop("baseline_stage", set()))
     ctx.guard("document-fragment normalisation is a no-op on freshly loaded databases",
               all(n == 0 for _, n in ctx.sets.pop("normalize_changes_on_fresh_base", {("?", 1)})))
@@ -1475,6 +1489,8 @@ def run(ctx: Ctx) -> None:
     # member orders x entry points
     ounits = order_chunks("ks", off, True, True, 16)
     ounits += order_chunks("ks-written", off, ctx.quick is False, False, 8)
+    ounits += order_chunks("ks-auxnames", off, False, True, 8)
+    ounits += order_chunks("ks-auxnames-written", off, False, False, 2)
     ounits += order_chunks("somersault", (), not ctx.quick, False, 16 if ctx.quick else 64)
     ounits += order_chunks("somersault_modified", (), False, False, 4)
     pmap(ctx, order_unit, ounits)
